@@ -93,8 +93,11 @@ fn main() {
     }
     macro_rules! agree { ($($ty:ty),*) => { $( {
         use truc::record::type_resolver::HostTypeResolver;
-        let a = t.type_info::<$ty>(); let b = HostTypeResolver.type_info::<$ty>();
-        if a != b { writeln!(ora, "property=C18 standard table and host resolver disagree on {}", stringify!($ty)).unwrap(); }
+        let b = HostTypeResolver.type_info::<$ty>();
+        match catch(|| t.type_info::<$ty>()) {
+            Ok(a) => if a != b { writeln!(ora, "property=C18 standard table and host resolver disagree on {}", stringify!($ty)).unwrap(); },
+            Err(e) => writeln!(ora, "property=C18 the standard table does not answer the typed lookup of {} although it is registered ({})", stringify!($ty), e.replace('\n', " ")).unwrap(),
+        }
         tables += 1;
     } )* } }
     agree!(u8, u16, u32, u64, u128, usize, i8, i16, i32, i64, i128, isize, f32, f64, char, bool, String, Box<str>, Vec<()>,
